@@ -156,6 +156,11 @@ def run(P, tier="quick"):
                 a_s = a.strip()
                 if a_s.k == "MemberExpr" and a_s.member == "cal_name":
                     sub = a_s.kids[0].strip()
+                    if sub.k == "DeclRefExpr" and sub.refkind == "local":
+                        # `existing = vcp->vc_calibration_vector[cur]` hoisted into a local
+                        sd = Canon(f).single_def(sub.refdecl)
+                        if sd is not None:
+                            sub = sd.strip()
                     if sub.k == "ArraySubscriptExpr" and sub.kids[1].strip().k == "DeclRefExpr":
                         match = n
                         idxvar = sub.kids[1].strip().refdecl
@@ -240,21 +245,30 @@ def run(P, tier="quick"):
     # direction of the ordered exit: element-index OP key, normalised with the chain element on the left
     def exit_ops(g):
         ops = set()
-        for lp in g.walk():
-            if lp.k not in ("ForStmt", "WhileStmt"):
+        for m in g.walk():
+            if m.k != "BinaryOperator" or m.op not in (">", ">=", "<", "<="):
                 continue
-            if not any(m.k == "MemberExpr" and (m.member or "").endswith("_hash_next") for m in lp.walk()):
+            lp = None
+            for a_ in m.ancestors():
+                if a_.k in ("ForStmt", "WhileStmt"):
+                    lp = a_
+                    break
+            if lp is None or not any(x.k == "MemberExpr" and (x.member or "").endswith("_hash_next") for x in lp.walk()):
                 continue
-            for m in lp.walk():
-                if m.k == "BinaryOperator" and m.op in (">", ">=", "<", "<="):
-                    l, r = m.kids[0], m.kids[1]
-                    lel = any(x.k == "MemberExpr" and x.member == "vpmr_index" for x in l.walk()) or \
-                        (l.strip().k == "DeclRefExpr" and l.strip().refname == "index")
-                    rel = any(x.k == "MemberExpr" and x.member == "vpmr_index" for x in r.walk())
-                    if lel and not rel:
-                        ops.add(m.op)
-                    elif rel and not lel:
-                        ops.add({">": "<", "<": ">", ">=": "<=", "<=": ">="}[m.op])
+            kids_ = [x for x in lp.kids if x is not None]
+            cond_ = lp.kids[2] if lp.k == "ForStmt" else (kids_[-2] if len(kids_) >= 2 else None)
+            l, r = m.kids[0], m.kids[1]
+            lel = any(x.k == "MemberExpr" and x.member == "vpmr_index" for x in l.walk()) or \
+                (l.strip().k == "DeclRefExpr" and l.strip().refname == "index")
+            rel = any(x.k == "MemberExpr" and x.member == "vpmr_index" for x in r.walk())
+            op = m.op
+            # a comparison in the loop's own condition says when the scan *continues*: the scan stops on its negation
+            if cond_ is not None and (cond_ is m or cond_.is_ancestor_of(m)):
+                op = {">": "<=", ">=": "<", "<": ">=", "<=": ">"}[op]
+            if lel and not rel:
+                ops.add(op)
+            elif rel and not lel:
+                ops.add({">": "<", "<": ">", ">=": "<=", "<=": ">="}[op])
         return ops
     for fld, ws in sorted(writers.items()):
         rs = readers.get(fld, set())
